@@ -1,5 +1,5 @@
 """Table from which tools/gen_manifest.py writes MANIFEST.json."""
-FIX_COMMITS = ["77a8511 (C20)", "5ffb491 (C06)", "c8070ac (C06)", "17c5c88 (C10)", "0f02627 (C12/C11)", "b090335 (C12)", "379af9d (C11)"]
+FIX_COMMITS = ["77a8511 (C20)", "5ffb491 (C06)", "c8070ac (C06)", "17c5c88 (C10)", "0f02627 (C12/C11)", "b090335 (C12)", "379af9d (C11)", "b049858 (C09/C19)"]
 
 CHECKS = {
     "C20": {
@@ -54,6 +54,24 @@ CHECKS = {
                 "form of the event number at its 9 uses + reload arithmetic. R12d: append-mode counter recovery over the same key set from "
                 "shape[0]. R12e/R12f: replay key agreement between Particle/Interaction metadata and FileGenerator, parallel-list discipline.",
         "note": "Not decided: data equality itself, foreign files. Trusted: CPython ast; Python slice.indices semantics.",
+    },
+    "C09": {
+        "technique": "static analysis: catch-up-loop shape + structured path counting + sibling (clone) agreement between Antenna and AntennaSystem",
+        "text": "Bookkeeping is consistent under every history because every cached list is brought up to date against its source on each "
+                "read; the rules check exactly that, per method: the 5 catch-up loops (strict <, one append per iteration on every path, "
+                "source read at len(cache)), clear() empties every list of __init__ and resets noise only on request, definitions of "
+                "is_hit/waveforms/is_hit_during, single noise realisation, superposition and disjointness skip in full_waveform, "
+                "Antenna<->AntennaSystem sibling agreement by normalised bodies, lead-in grid in normal form.",
+        "note": "Not decided: numerical equality of the superposition, n_pts rounding, front ends of subclasses. Necessary conditions; "
+                "assumes signals are appended only by receive().",
+    },
+    "C19": {
+        "technique": "static analysis: decision-table extraction of the composition operators, clone comparison, flatten recursion shape",
+        "text": "iter/len/getitem of every Detector class consume flatten(self.subsets) only (sufficient for their agreement at any nesting); "
+                "operator decision tables fix the operand order of +, radd, += (self first / other first); flatten forwards dont_flatten and "
+                "keeps str/bytes; the three any-hit tests are one clone; clear forwards reset_noise over self; the three position "
+                "comparisons are z>0 and run in every constructor and +=; keyword dispatch shape; MC-truth sibling (with C09).",
+        "note": "Not decided: associativity as list equality (follows informally from R19a+R19b), user subclasses. Necessary conditions.",
     },
 }
 
